@@ -31,7 +31,13 @@ type dialect struct {
 	table       string
 	preset      string // "", postgres, mysql, sqlite
 	presetFirst bool
+	opts        []dialectOpt
 	readOpts    int // > 0: options that only concern ReadSQL (Precision, Coerce) are passed to ToSQL too - one configuration for both directions
+}
+
+type dialectOpt struct {
+	kind string // postgres, mysql, sqlite, escape, incr
+	r    rune
 }
 
 func (d dialect) fns() []qsql.ConfigFunc {
@@ -40,19 +46,20 @@ func (d dialect) fns() []qsql.ConfigFunc {
 		// documented as read options ("rounded to when read from SQL"): writing must ignore them
 		fns = append(fns, qsql.Precision(d.readOpts))
 	}
-	switch d.preset {
-	case "postgres":
-		return append(fns, qsql.Postgres())
-	case "mysql":
-		return append(fns, qsql.MySQL())
-	case "sqlite":
-		return append(fns, qsql.SQLite())
-	}
-	if d.escape != 0 {
-		fns = append(fns, qsql.EscapeChar(d.escape))
-	}
-	if d.incr {
-		fns = append(fns, qsql.Incrementing())
+	// the dialect options in the order drawn: each one sets its fields, later ones win
+	for _, o := range d.opts {
+		switch o.kind {
+		case "postgres":
+			fns = append(fns, qsql.Postgres())
+		case "mysql":
+			fns = append(fns, qsql.MySQL())
+		case "sqlite":
+			fns = append(fns, qsql.SQLite())
+		case "escape":
+			fns = append(fns, qsql.EscapeChar(o.r))
+		case "incr":
+			fns = append(fns, qsql.Incrementing())
+		}
 	}
 	return fns
 }
@@ -196,17 +203,26 @@ func TestC19(t *testing.T) {
 
 func c19RoundTrip(t *rapid.T) {
 	var d dialect
-	d.preset = rapid.SampledFrom([]string{"", "", "", "postgres", "mysql", "sqlite"}).Draw(t, "preset")
-	switch d.preset {
-	case "postgres":
-		d.escape, d.incr = '"', true
-	case "sqlite":
-		d.escape = '"'
-	case "mysql":
-		d.escape = '`'
-	default:
-		d.escape = rapid.SampledFrom([]rune{0, '"', '`', '"', '`', '\'', '´', '«', '“', '＂'}).Draw(t, "escape")
-		d.incr = rapid.Bool().Draw(t, "incr")
+	// 0-3 dialect options in any order: presets (Postgres sets escape and numbering, MySQL/SQLite the escape
+	// character only), EscapeChar, Incrementing; what a later option does not set stays as it was
+	nopts := rapid.IntRange(0, 3).Draw(t, "nopts")
+	for i := 0; i < nopts; i++ {
+		o := dialectOpt{kind: rapid.SampledFrom([]string{"postgres", "mysql", "sqlite", "escape", "escape", "incr"}).Draw(t, "opt")}
+		switch o.kind {
+		case "postgres":
+			d.escape, d.incr = '"', true
+		case "sqlite":
+			d.escape = '"'
+		case "mysql":
+			d.escape = '`'
+		case "escape":
+			o.r = rapid.SampledFrom([]rune{'"', '`', '"', '`', '\'', '´', '«', '“', '＂'}).Draw(t, "escape")
+			d.escape = o.r
+		case "incr":
+			d.incr = true
+		}
+		d.opts = append(d.opts, o)
+		d.preset += o.kind + ","
 	}
 	if rapid.IntRange(0, 3).Draw(t, "readoptsonwrite") == 0 {
 		d.readOpts = rapid.IntRange(1, 3).Draw(t, "precisiononwrite")
@@ -524,5 +540,20 @@ func c19ResultSet(t *rapid.T) {
 		}
 	}
 	classes := []string{"mode:resultset", fmt.Sprintf("precision=%d", precision), fmt.Sprintf("coercions=%d", len(pairs))}
+	// "its values in row order": a result set whose fetch breaks off at row k is never handed out as if it were the
+	// result set (an error, or - if the failure is not reached - the complete frame)
+	if len(m.Rows) > 0 && rapid.IntRange(0, 3).Draw(t, "truncate") == 0 {
+		k := rapid.IntRange(0, len(m.Rows)).Draw(t, "failrow")
+		m.FailNextAt = k
+		var part qframe.QFrame
+		if perr := hx.Safely(func() { part = qframe.ReadSQL(tx, fns...) }); perr != nil {
+			t.Fatalf("ReadSQL panicked when the fetch of row %d failed: %v\n%s", k, perr, desc())
+		}
+		m.FailNextAt = -1
+		if part.Err == nil && part.Len() != qf.Len() {
+			t.Fatalf("the fetch of row %d of %d failed but ReadSQL returned an error-free frame with %d rows\n%s", k, len(m.Rows), part.Len(), desc())
+		}
+		classes = append(classes, "fetch-broken-off")
+	}
 	evC19.Case(n >= 2 && hasNull, desc, classes...)
 }
